@@ -396,13 +396,21 @@ pub fn snapshot_all_pendding_dbs(dbs: &Arc<Databases>) {
 }
 
 pub fn snapshot_keys(dbs: &Arc<Databases>) {
+    #[cfg(feature = "verif")]
+    crate::verif::yield_point("snapshot_keys.flag.load");
     if !dbs.is_oplog_valid.load(Ordering::Relaxed) {
+        #[cfg(feature = "verif")]
+        crate::verif::yield_point("snapshot_keys.keys.read");
         let keys_map = {
             let keys_map = dbs.keys_map.read().unwrap();
             keys_map.clone()
         };
         log::debug!("Will snapshot the keys {}", keys_map.len());
+        #[cfg(feature = "verif")]
+        crate::verif::yield_point("snapshot_keys.before_write");
         write_keys_map_to_disk(keys_map);
+        #[cfg(feature = "verif")]
+        crate::verif::yield_point("snapshot_keys.before_mark_valid");
         mark_op_log_as_valid(dbs).unwrap();
     } else {
         log::debug!("keys already save, not saving keys file! Metadata already saved!")
